@@ -33,8 +33,8 @@ def schema():
     return _SCHEMA
 
 
-def msg_id(name: str) -> int:
-    return schema()[2][name]
+def msg_id(name: str) -> int | None:
+    return schema()[2].get(name)
 
 
 def msg_name(id_: int) -> str | None:
